@@ -55,7 +55,13 @@ def _dense(op, wire_order):
     if len(op.wires) == 0:
         M = np.asarray(qp.matrix(op), dtype=complex)
         return M.ravel()[0] * np.eye(2 ** len(wire_order), dtype=complex)
-    return np.asarray(qp.matrix(op, wire_order=list(wire_order)), dtype=complex)
+    try:
+        return np.asarray(qp.matrix(op, wire_order=list(wire_order)), dtype=complex)
+    except NotImplementedError as exc:
+        # Exp without a dense matrix: "Wire order is not implemented for sparse_matrix" (explicitly unimplemented); embed by hand
+        if "Wire order is not implemented" not in str(exc):
+            raise
+        return RS.embed(np.asarray(qp.matrix(op), dtype=complex), list(op.wires), list(wire_order))
 
 
 def _documented_rejection(exc):
@@ -105,6 +111,50 @@ def _fractional_base_outside(e):
     return any(_fractional_base_outside(x) for x in e[1:] if isinstance(x, list) and x and isinstance(x[0], str) and x[0] in X._KINDS)
 
 
+def _fractional_base_outside_op(op, depth=0):
+    """Same test on the operator that was actually built (eager qp.pow merges exponents before the Pow is created)."""
+    import pennylane as qp
+
+    z = getattr(op, "z", None)
+    if z is not None and hasattr(op, "base") and not isinstance(z, int):
+        try:
+            with qp.QueuingManager.stop_recording():
+                sb = qp.simplify(op.base)
+            if any(abs(p) >= X.PI - 1e-6 for p in _all_params(sb)):
+                return True
+        except Exception:  # noqa: BLE001
+            pass
+    if depth < 6:
+        for sub in ([op.base] if hasattr(op, "base") else []) + list(getattr(op, "operands", ())):
+            if _fractional_base_outside_op(sub, depth + 1):
+                return True
+    return False
+
+
+def _cob_pauli_rep_wrong(e):
+    """Failure-class test (root cause recorded as known_findings/C01 'pauli_rep-mismatch:ChangeOpBasis[S,X]'): the expression
+    contains a change_op_basis node whose Pauli representation differs from its matrix (operands multiplied in reverse order,
+    visible when the compute operator is not self-adjoint, e.g. S)."""
+    k = e[0]
+    if k == "cob":
+        try:
+            M, W, _ = X.evaluate(e)
+            pr = X.build(e).pauli_rep
+            if pr is not None and not _close(np.asarray(pr.to_mat(wire_order=W), dtype=complex), M):
+                return True
+        except Exception:  # noqa: BLE001
+            pass
+    return any(_cob_pauli_rep_wrong(x) for x in e[1:] if isinstance(x, list) and x and isinstance(x[0], str) and x[0] in X._KINDS)
+
+
+def _mismatch_class(stage, e, op, sh):
+    if _cob_pauli_rep_wrong(e):
+        return f"{stage}:uses-reversed-pauli_rep-of-ChangeOpBasis"
+    if stage == "simplify-changes-map" and (_fractional_base_outside(e) or _fractional_base_outside_op(op)):
+        return "simplify-changes-map:fractional-power-of-base-simplified-to-angle-outside(-pi,pi)"
+    return f"{stage}:{sh}"
+
+
 def _raise_class(stage, exc, e, sh):
     msg = str(exc)
     if isinstance(exc, TypeError) and ("'Exp' object is not iterable" in msg or "object of type 'Exp' has no len()" in msg) and _pow_over(e, ("exp",)):
@@ -144,7 +194,7 @@ def check(e):
                    _raise_class("matrix", exc, e, sh), "SparseMatrixUndefinedError from qp.matrix(op) (has_sparse_matrix is %s)" % op.has_sparse_matrix,
                    "a matrix or MatrixUndefinedError", op=repr(op)[:300])
     if not _close(got, ref, tol):
-        return bad(f"matrix:{sh}", got, ref, op=repr(op)[:300], wire_order=Wx)
+        return bad(_mismatch_class("matrix", e, op, sh), got, ref, op=repr(op)[:300], wire_order=Wx)
     # ---- simplify keeps the linear map
     try:
         with qp.QueuingManager.stop_recording():
@@ -158,12 +208,18 @@ def check(e):
     except (MatrixUndefinedError, SparseMatrixUndefinedError):
         gs = None
     if gs is not None and not _close(gs, ref, tol):
-        if _fractional_base_outside(e):
-            sig = "simplify-changes-map:fractional-power-of-base-simplified-to-angle-outside(-pi,pi)"
-        else:
-            sig = f"simplify-changes-map:{sh}"
-        return bad(sig, gs, ref, op=repr(op)[:300], simplified=repr(s)[:300], wire_order=Wx)
-    # ---- relabelling changes the map only by the relabelling
+        return bad(_mismatch_class("simplify-changes-map", e, op, sh), gs, ref, op=repr(op)[:300], simplified=repr(s)[:300], wire_order=Wx)
+    # ---- simplify must not change the operator it was given (cached representations are shared with later calls)
+    try:
+        again = _dense(op, Wx)
+    except Exception as exc:  # noqa: BLE001
+        cls = "SProd(0)-over-ChangeOpBasis" if (type(op).__name__ == "SProd" and X.has_kind(e, ("cob",)) and abs(complex(op.scalar)) == 0) else sh
+        return bad(f"simplify-mutates-operand:matrix-raises-afterwards:{type(exc).__name__}:{cls}", f"{type(exc).__name__}: {exc}"[:300],
+                   "qp.matrix(op) as before qp.simplify(op)", op=repr(op)[:300])
+    if not _close(again, ref, tol):
+        return bad(f"simplify-mutates-operand:{sh}", again, ref, op=repr(op)[:300])
+    # ---- relabelling changes the map only by the relabelling (on a freshly built operator)
+    op = X.build(e)
     for nm, sigma in RELABEL.items():
         try:
             with qp.QueuingManager.stop_recording():
@@ -173,9 +229,12 @@ def check(e):
         want_w = [sigma.get(w, w) for w in op.wires]
         if set(m.wires) != set(want_w):
             return bad(f"map_wires-wires:{nm}:{sh}", list(m.wires), want_w)
-        gm = _dense(m, [sigma.get(w, w) for w in Wx])
+        try:
+            gm = _dense(m, [sigma.get(w, w) for w in Wx])
+        except Exception as exc:  # noqa: BLE001 - the original had a matrix, the relabelled operator must have one too
+            return bad(_raise_class(f"map_wires-matrix:{nm}", exc, e, sh), f"{type(exc).__name__}: {exc}"[:300], "a matrix", mapped=repr(m)[:300])
         if not _close(gm, ref, tol):
-            return bad(f"map_wires-changes-map:{nm}:{sh}", gm, ref, op=repr(op)[:300], mapped=repr(m)[:300])
+            return bad(_mismatch_class(f"map_wires-changes-map:{nm}", e, op, sh), gm, ref, op=repr(op)[:300], mapped=repr(m)[:300])
     tr = np.trace(ref)
     scalar = bool(np.allclose(ref, ref[0, 0] * np.eye(ref.shape[0])))
     return ok(outcome=[type(op).__name__, type(s).__name__, gs is not None, len(Wx), round(float(tr.real), 5), round(float(tr.imag), 5)],
